@@ -93,6 +93,9 @@ pub fn roots(m: &mut M, r: &mut Rng, n: u64) {
         }
         m.call("elem", "hypot", *r.pick(&SP2), Some(6), &[A::R(4), A::R(5)]);
         m.call("elem", "hypot", "inh", Some(6), &[A::R(5), A::R(4)]);
+        if i % 4 == 0 {
+            neighbour_replay2(m, r, "hypot", 4, 5, &[]);
+        }
     }
 }
 
@@ -352,6 +355,9 @@ fn powf_case(m: &mut M, r: &mut Rng) {
         m.call("elem", "powf", *r.pick(&["Pow_f64_vv", "Pow_f64_rr"]), Some(6), &[A::R(2), A::F(y.hi()), A::R(4)]);
     }
     m.call("elem", "powf", *r.pick(&["inh", "Float", "Pow_vv", "Pow_rr"]), Some(6), &[A::R(2), A::R(3), A::R(4)]);
+    if r.below(3) == 0 {
+        neighbour_replay2(m, r, "powf", 2, 3, &[4]);
+    }
 }
 
 // ------------------------------------------------------------------------------------ C15
@@ -421,6 +427,9 @@ pub fn logs(m: &mut M, r: &mut Rng, n: u64) {
             m.call("elem", "ln", "inh", Some(7), &[A::R(6)]);
             m.call("arith", "div", "vv", Some(4), &[A::R(1), A::R(7)]);
             m.call("elem", "log", *r.pick(&SP2), Some(5), &[A::R(0), A::R(6)]);
+            if i % 2 == 0 {
+                neighbour_replay2(m, r, "log", 0, 6, &[]);
+            }
         }
         // ln_1p
         match r.below(8) {
@@ -534,6 +543,40 @@ fn neighbour_replay(m: &mut M, r: &mut Rng, fam: &str, ops: &[&str], reg: usize)
                 m.call(fam, op, "inh", Some(6), &[A::R(reg)]);
             }
             return;
+        }
+    }
+}
+
+/// the two-operand version: f(x, y) has just been evaluated (same group); for each operand in turn, evaluate f with
+/// that operand replaced by a neighbour sharing its high word, then f(x, y) again.  `extra` are further argument
+/// registers passed unchanged (the logarithm hint of powf).
+fn neighbour_replay2(m: &mut M, r: &mut Rng, op: &str, x: usize, y: usize, extra: &[usize]) {
+    // a destination register that is not one of the operands
+    let dest = (0..7usize).rev().find(|d| *d != x && *d != y && !extra.contains(d)).unwrap();
+    for which in 0..2 {
+        let reg = if which == 0 { x } else { y };
+        let v = m.tf(reg);
+        if !v.hi().is_finite() || v.hi() == 0.0 {
+            continue;
+        }
+        for _ in 0..4 {
+            let lo2 = match r.below(4) {
+                0 => -v.lo(),
+                1 => 0.0,
+                2 => v.lo() * 0.5,
+                _ => lo_candidate(r, v.hi()),
+            };
+            if lo2.to_bits() != v.lo().to_bits() && m.load(7, v.hi(), lo2) {
+                let mut a1: Vec<A> = vec![A::R(if which == 0 { 7 } else { x }), A::R(if which == 1 { 7 } else { y })];
+                let mut a0: Vec<A> = vec![A::R(x), A::R(y)];
+                for e in extra {
+                    a1.push(A::R(*e));
+                    a0.push(A::R(*e));
+                }
+                m.call("elem", op, "inh", Some(dest), &a1);
+                m.call("elem", op, "inh", Some(dest), &a0);
+                break;
+            }
         }
     }
 }
@@ -656,6 +699,9 @@ pub fn atrig(m: &mut M, r: &mut Rng, n: u64) {
                 load_near(m, r, 6, hx);
             }
             m.call("elem", "atan2", *r.pick(&SP2), Some(7), &[A::R(5), A::R(6)]);
+            if i % 4 == 0 {
+                neighbour_replay2(m, r, "atan2", 5, 6, &[]);
+            }
         }
     }
 }
@@ -715,7 +761,9 @@ pub fn hyp(m: &mut M, r: &mut Rng, n: u64) {
                 load_sum(m, 6, 1.0, pow2(-j) * (1.0 + u));
             }
             1 => {
-                m.load(6, *r.pick(&[1.0, 0.5, 0.0, -2.0]), 0.0);
+                // the exact point and the edge of the domain, with either sign of a zero low word (a value that went
+                // through a negation or abs carries lo = -0.0)
+                m.load(6, *r.pick(&[1.0, 1.0, 0.5, 0.0, -2.0]), if r.coin() { 0.0 } else { -0.0 });
             }
             _ => {
                 let h = log_uniform(r, 0, 60);
@@ -839,7 +887,13 @@ pub fn elem_all(m: &mut M, r: &mut Rng, n: u64) {
             4 => sgn(r) * log_uniform(r, -1, 1),
             _ => log_uniform(r, -1000, 900),
         };
-        load_near(m, r, 0, h);
+        if i % 16 == 9 {
+            // exact points (0, 1, -1) in every signed-zero representation
+            let p = *r.pick(&[0.0, -0.0, 1.0, -1.0]);
+            m.load(0, p, if r.coin() { 0.0 } else { -0.0 });
+        } else {
+            load_near(m, r, 0, h);
+        }
         for op in ["exp", "exp2", "exp_m1", "ln", "log2", "log10", "ln_1p", "sqrt", "cbrt", "sin", "cos", "tan", "sin_cos",
                    "asin", "acos", "atan", "sinh", "cosh", "tanh", "asinh", "acosh", "atanh"] {
             m.call("elem", op, "inh", Some(1), &[A::R(0)]);
@@ -852,10 +906,21 @@ pub fn elem_all(m: &mut M, r: &mut Rng, n: u64) {
             let h2 = sgn(r) * log_uniform(r, -3, 3);
             load_near(m, r, 2, h2);
             m.call("elem", "hypot", "inh", Some(3), &[A::R(0), A::R(2)]);
+            if i % 8 == 0 {
+                neighbour_replay2(m, r, "hypot", 0, 2, &[]);
+                neighbour_replay2(m, r, "atan2", 0, 2, &[]);
+            }
             m.call("elem", "atan2", "inh", Some(3), &[A::R(0), A::R(2)]);
             m.call("base", "abs", "inh", Some(4), &[A::R(0)]);
             m.call("elem", "ln", "inh", Some(5), &[A::R(4)]);
             m.call("elem", "powf", "inh", Some(3), &[A::R(4), A::R(2), A::R(5)]);
+            m.call("base", "abs", "inh", Some(6), &[A::R(2)]);
+            m.call("elem", "log", "inh", Some(3), &[A::R(4), A::R(6)]);
+            if i % 8 == 4 {
+                // hidden state keyed on part of an operand of a two-operand function (a cache of ln(base), ...)
+                neighbour_replay2(m, r, "powf", 4, 2, &[5]);
+                neighbour_replay2(m, r, "log", 4, 6, &[]);
+            }
             let k = r.range(-40, 40);
             m.call("pow", "powi", "inh", Some(3), &[A::R(0), A::I(k < 0, k.unsigned_abs() as u128, "i32")]);
             m.call("misc", "to_degrees", "inh", Some(3), &[A::R(0)]);
